@@ -32,7 +32,7 @@ CONSTANTS
   OnceClose
 VARIABLES
   \* @type: Str;
-  cli,      \* "start","written","sent","done_ok","done_err"
+  cli,      \* "start","written","sent","wfailed","failing","done_ok","done_err"
   \* @type: Int;
   i,        \* loop counter
   \* @type: Str;
@@ -66,6 +66,15 @@ EnterSelect == /\ cli = "written" /\ cli' = "sent"
 \* a write on a transport that has meanwhile been closed fails: handshake returns the error
 SendFails == /\ cli = "start" /\ i <= MaxRetx /\ closed
              /\ cli' = "done_err" /\ UNCHANGED <<i, errc, srv, meta, inq, ncer, closed, npeer, appOK, crashed>>
+\* a write the transport refuses while the connection is otherwise healthy (the read side keeps working, the peer
+\* keeps the connection): handshake logs the failure, closes the transport itself and returns the error
+WriteFails == /\ cli = "start" /\ i <= MaxRetx /\ ~closed
+              /\ cli' = "wfailed" /\ UNCHANGED <<i, errc, srv, meta, inq, ncer, closed, npeer, appOK, crashed>>
+CloseAfterWFail == /\ cli = "wfailed" /\ cli' = "done_err" /\ closed' = TRUE
+                   /\ UNCHANGED <<i, errc, srv, meta, inq, ncer, npeer, appOK, crashed>>
+\* sensitivity only (NextNoClose): returning the write error without closing
+ReturnAfterWFail == /\ cli = "wfailed" /\ cli' = "done_err"
+                    /\ UNCHANGED <<i, errc, srv, meta, inq, ncer, closed, npeer, appOK, crashed>>
 RecvClosed == /\ cli = "sent" /\ errc = "closed" /\ cli' = "done_ok"
               /\ UNCHANGED <<i, errc, srv, meta, inq, ncer, closed, npeer, appOK, crashed>>
 \* the failing CEA's error is received (the sender, handleCEA, is released and the serve goroutine goes on
@@ -104,8 +113,9 @@ PeerEOF == /\ ncer > 0 /\ ~closed /\ srv = "idle" /\ inq = <<>> /\ errc = "open"
            /\ UNCHANGED <<cli, i, errc, srv, meta, inq, ncer, npeer, appOK, crashed>>
 AppAnswer == /\ cli = "done_ok" /\ srv = "idle" /\ inq = <<>> /\ ~closed /\ appOK' = TRUE
              /\ UNCHANGED <<cli, i, errc, srv, meta, inq, ncer, closed, npeer, crashed>>
-Next == WriteCER \/ EnterSelect \/ SendFails \/ RecvClosed \/ RecvErr \/ CloseErrc \/ Timer \/ (\E k \in {"ok", "fail"} : Peer(k)) \/ HandleCEA \/ SendOnClosed \/ AppAnswer \/ PeerEOF
+Next == WriteCER \/ EnterSelect \/ SendFails \/ WriteFails \/ CloseAfterWFail \/ RecvClosed \/ RecvErr \/ CloseErrc \/ Timer \/ (\E k \in {"ok", "fail"} : Peer(k)) \/ HandleCEA \/ SendOnClosed \/ AppAnswer \/ PeerEOF
 Spec == Init /\ [][Next]_vars
+NextNoClose == Next \/ ReturnAfterWFail
 
 \* HandshakeObs at design level
 NoCrash       == ~crashed
